@@ -47,6 +47,66 @@ pub mod d5 {
     include!(concat!(env!("OUT_DIR"), "/a.b.S.rs"));
 }
 
+pub mod d6 {
+    include!(concat!(env!("OUT_DIR"), "/u.Unit.rs"));
+}
+
+/// A message without fields: its bincode encoding is empty.
+#[derive(Debug, Clone, PartialEq, Serialize, Deserialize)]
+pub struct Marker;
+
+#[derive(Clone, Default)]
+struct U {
+    log: Arc<Mutex<Vec<&'static str>>>,
+}
+
+#[anemo::async_trait]
+impl d6::unit_server::Unit for U {
+    async fn ping(&self, _request: Request<()>) -> Result<Response<()>, Status> {
+        self.log.lock().unwrap().push("ping");
+        Ok(Response::new(()))
+    }
+    async fn ping_json(&self, _request: Request<()>) -> Result<Response<()>, Status> {
+        self.log.lock().unwrap().push("ping_json");
+        Ok(Response::new(()))
+    }
+    async fn mark(&self, _request: Request<Marker>) -> Result<Response<Marker>, Status> {
+        self.log.lock().unwrap().push("mark");
+        Ok(Response::new(Marker))
+    }
+}
+
+/// Typed calls whose messages encode to nothing at all.
+fn run_unit_messages(out: &mut Out) {
+    for method in ["ping", "ping_json", "mark"] {
+        let u = U::default();
+        let router = Router::new().add_rpc_service(d6::unit_server::UnitServer::new(u.clone()));
+        let mut client = d6::unit_client::UnitClient::new(router);
+        let r: Result<Result<(), Status>, String> = std::panic::catch_unwind(std::panic::AssertUnwindSafe(|| match method {
+            "ping" => client.ping(()).now_or_never().expect("completes").map(|_| ()),
+            "ping_json" => client.ping_json(()).now_or_never().expect("completes").map(|_| ()),
+            _ => client.mark(Marker).now_or_never().expect("completes").map(|r| assert_eq!(*r.body(), Marker)),
+        }))
+        .map_err(|p| p.downcast_ref::<String>().cloned().or_else(|| p.downcast_ref::<&str>().map(|s| s.to_string())).unwrap_or_default());
+        out.evaluations += 1;
+        let ctx = format!("[u.Unit::{method} with a message whose encoding is empty]");
+        let log = u.log.lock().unwrap().clone();
+        let mut v = |key: &str, m: String| out.violations.push(json!({"key": key, "message": format!("{ctx} {m}"), "replay": {"unit": {"kind": "dynamic"}, "case": ctx}}));
+        match r {
+            Err(p) => v("typed-call-panics", format!("the typed call panicked: {p}")),
+            Ok(res) => {
+                if log != vec![method] {
+                    v("wrong-handler", format!("expected exactly one invocation of handler {method}, the handlers saw {log:?}"));
+                }
+                if let Err(s) = res {
+                    v("typed-call-fails", format!("nothing was damaged but the call failed: {:?} {:?}", s.status(), s.headers()));
+                }
+            }
+        }
+        *out.classes.entry("dynamic:empty-message".into()).or_default() += 1;
+    }
+}
+
 #[derive(Clone, Debug)]
 enum Outcome {
     Ok,
@@ -356,5 +416,6 @@ fn main() {
     run_service!(&mut out, "a.b.Greeter", d2::greeter_server::GreeterServer<H>, d2::greeter_client::GreeterClient<_>, [(m, false), (say_hello, false), (m_1, true)]);
     run_service!(&mut out, "Greeter", d3::greeter_server::GreeterServer<H>, d3::greeter_client::GreeterClient<_>, [(m, true)]);
     run_service!(&mut out, "a.b.S", d5::s_server::SServer<H>, d5::s_client::SClient<_>, [(m, false), (mm, false)]);
+    run_unit_messages(&mut out);
     println!("{}", json!({"evaluations": out.evaluations, "classes": out.classes, "violations": out.violations}));
 }
